@@ -1568,7 +1568,7 @@ class Intel:
                 key = F(1)
                 divs = []
                 ok = True
-                rob = lo * (1 + SLACK) <= vco <= hi * (1 - SLACK)
+                rob = rob_in(lo, vco, hi, vm == 0 and ints)
                 for (f, p, mg) in outs:
                     x = vco / f
                     best = None
@@ -1777,7 +1777,7 @@ class Gw1n:
                     if fl.cmp_le(lo, vco, vm == 0 and ints, "vco>=min") and fl.cmp_le(vco, hi, vm == 0 and ints, "vco<=max") and good:
                         cands.append((diff, idiv, fdiv, odiv))
                         if robust is None and (diff <= fmax * mmax - SLACK * fmax or (diff == 0 and ints)) and \
-                                lo * (1 + SLACK) <= vco <= hi * (1 - SLACK) and pmin * (1 + SLACK) <= pfd <= pmax * (1 - SLACK):
+                                rob_in(lo, vco, hi, vm == 0 and ints) and rob_in(pmin, pfd, pmax, ex):
                             robust = (idiv, fdiv, odiv)
         first = None
         if cands:
